@@ -20,7 +20,7 @@ import traceback
 
 VERIF = os.path.dirname(os.path.dirname(os.path.dirname(os.path.abspath(__file__))))
 REPO = os.environ.get("FCV_REPO", "/repo")
-BUILD = os.path.join(VERIF, ".build")
+BUILD = os.environ.get("FCV_BUILD", os.path.join(VERIF, ".build"))
 HOOKS_TARGET = os.path.join(BUILD, "hooks")
 FCLONES = os.path.join(HOOKS_TARGET, "debug", "fclones")
 SHM = os.environ.get("FCV_SCRATCH", "/dev/shm")
@@ -74,6 +74,25 @@ def build_harness(name, rustflags, profile="release", bins=None):
     """Builds /verif/harness/<name> (a cargo crate) into /verif/.build/<name>."""
     crate = os.path.join(VERIF, "harness", name)
     target = os.path.join(BUILD, name)
+    if REPO != "/repo":
+        # the harness crates name /repo (path dependency, #[path] include): for a run against another copy of the
+        # repository (FCV_REPO) a copy of the crates with that path substituted is built instead
+        src_root = os.path.join(BUILD, "harness-src")
+        for sub in (name, "sem"):
+            s_dir = os.path.join(VERIF, "harness", sub)
+            if not os.path.isdir(s_dir):
+                continue
+            for dp, dn, fn in os.walk(s_dir):
+                rel = os.path.relpath(dp, os.path.join(VERIF, "harness"))
+                os.makedirs(os.path.join(src_root, rel), exist_ok=True)
+                for f in fn:
+                    with open(os.path.join(dp, f), "rb") as fh:
+                        data = fh.read().replace(b"/repo/", REPO.encode() + b"/")
+                    dst = os.path.join(src_root, rel, f)
+                    if not os.path.exists(dst) or open(dst, "rb").read() != data:
+                        with open(dst, "wb") as fh:
+                            fh.write(data)
+        crate = os.path.join(src_root, name)
     with _lock(name):
         _sync_lock(crate)
         cmd = ["cargo", "build", "--offline"]
